@@ -446,12 +446,14 @@ func runC06(t *testing.T, sc c06Scenario) (v verdict) {
 						if got != sat {
 							add("minmax-saturation", fmt.Sprintf("eval %d: curve %s [%d,%d] at %v m-deg = %d, want %d", ei, nodeId(i), n.Min, n.Max, ev.Vals[n.Sensor], got, sat))
 						}
-					} else if float64(got) > e+1e-6 || float64(got) < math.Floor(e-1e-6) {
+					} else if float64(got) > math.Ceil(e+1e-6) || float64(got) < math.Floor(e-1e-6) {
+						// "matches the clamped linear interpolation": either integer neighbour of the exact
+						// value (the statement does not fix the rounding; fan2go truncates here and rounds steps)
 						add("minmax-interpolation", fmt.Sprintf("eval %d: curve %s [%d,%d] at %v m-deg = %d, exact %.9f", ei, nodeId(i), n.Min, n.Max, ev.Vals[n.Sensor], got, e))
 					}
 				case "steps":
 					e := refSteps(n, ev.Vals[n.Sensor])
-					if math.Abs(float64(got)-e) > 0.5+1e-4 {
+					if float64(got) > math.Ceil(e+1e-4) || float64(got) < math.Floor(e-1e-4) {
 						add("steps-interpolation", fmt.Sprintf("eval %d: curve %s steps %v at %v m-deg = %d, exact %.9f", ei, nodeId(i), n.Steps, ev.Vals[n.Sensor], got, e))
 					}
 				case "pid":
